@@ -10,7 +10,7 @@ from hypothesis import strategies as st
 from checks.sctp_common import base_problems, session_classes
 from vlib.runner import Check, Family, Outcome
 from vlib.sctpsim import Session
-from vlib.strategies import fate_list, send_op
+from vlib.strategies import fate_list, send_op, yielding
 
 ORDER = {"connecting": 0, "open": 1, "closing": 2, "closed": 3}
 
@@ -115,7 +115,8 @@ def _run_lifecycle(case: dict, flags: dict) -> Outcome:
                     continue  # what was still queued when a channel closed is discarded; the counter is not reset
                 if ch.bufferedAmount < 0:
                     problems.append(("buffered-negative", f"channel {rec.idx} side {side}: bufferedAmount {ch.bufferedAmount} ({where})"))
-                elif ch.bufferedAmount != per.get(id(ch), 0):
+                elif ch.bufferedAmount != per.get(id(ch), 0) and ch.bufferedAmount != per.get(id(ch), 0) + s.handing_over[side].get(ch.id, 0):
+                    # (a message whose hand-over to the association is suspended inside a yielding send may or may not be counted)
                     problems.append(("buffered-mismatch", f"channel {rec.idx} side {side}: bufferedAmount {ch.bufferedAmount} but "
                                      f"{per.get(id(ch), 0)} bytes of its messages are queued ({where})"))
 
@@ -374,7 +375,9 @@ CHECK = Check(
         "drained), bufferedamountlow fires exactly on downward crossings, nothing raises. Non-trivial = a close directly "
         "after create, a non-ASCII label, an id reuse or a stop()."
     ),
-    families=[Family("programs", run_lifecycle, lifecycle_case, quick=4000, thorough=120000, min_shard=20)],
+    families=[Family("programs", run_lifecycle, lifecycle_case, quick=4000, thorough=120000, min_shard=20),
+              # the same programs over a transport whose send suspends (TURN channel bind / refresh)
+              Family("yielding-send", run_lifecycle, lambda tier: yielding(lifecycle_case(tier)), quick=1500, thorough=40000, min_shard=20)],
     floor=300,
     recognisers={
         "reconfig-not-retransmitted": lambda fam, case, out: out.kind == "close-incomplete" and bool(out.info.get("reconfig_dropped")),
